@@ -1,28 +1,38 @@
 import CG.Driver.Codec
+import CG.Driver.HGraph
+import CG.Driver.HName
 
 /-- stateless handlers: first token of a line selects the handler -/
 def handlers : List (String × (List String → String)) := [
-  ("echo", fun args => " ".intercalate args)
+  ("echo", fun args => " ".intercalate args),
+  ("name", CG.Driver.Name.handle)
 ]
 
-partial def loop (h : IO.FS.Stream) (out : IO.FS.Stream) : IO Unit := do
+structure DState where
+  slots : CG.Driver.GraphH.Slots := {}
+
+def dispatch (st : DState) (toks : List String) : DState × String :=
+  match toks with
+  | [] => (st, "bad-op")
+  | "g" :: rest =>
+    let (s', r) := CG.Driver.GraphH.handle st.slots rest
+    ({ st with slots := s' }, r)
+  | t :: rest =>
+    match handlers.lookup t with
+    | some f => (st, f rest)
+    | none => (st, "bad-op")
+
+partial def loop (h : IO.FS.Stream) (out : IO.FS.Stream) (st : DState) : IO Unit := do
   let line ← h.getLine
   if line.isEmpty then return ()
   let l := (line.dropEndWhile (fun c => c = '\n' || c = '\r')).toString
-  let toks := l.splitOn " "
-  let reply :=
-    match toks with
-    | [] => "bad-op"
-    | t :: rest =>
-      match handlers.lookup t with
-      | some f => f rest
-      | none => "bad-op"
+  let (st', reply) := dispatch st (l.splitOn " ")
   out.putStrLn reply
   out.flush
-  loop h out
+  loop h out st'
 
 def main : IO Unit := do
   let i ← IO.getStdin
   let o ← IO.getStdout
-  loop i o
+  loop i o {}
   o.flush
